@@ -55,6 +55,10 @@ class IntShim(metaclass=_Meta):
             return x.__int__()
         if isinstance(x, (SymStr, _SB)):
             raise Unsupported("int() of symbolic text")
+        if type(x).__name__ == "SymText":
+            if x.kind == "dec" and not (x.up or x.lo):
+                return x.payload  # int(str(n)) == n
+            raise Unsupported("int() of symbolic text")
         return _int(x)
 
     from_bytes = staticmethod(core.int_from_bytes)
@@ -69,6 +73,10 @@ class FloatShim(metaclass=_Meta):
         if isinstance(x, (SymInt, SymBool)):
             return core.tofloat(x) if isinstance(x, SymInt) else core.mkfloat(core.fp(x))
         if isinstance(x, SymStr):
+            raise Unsupported("float() of symbolic text")
+        if type(x).__name__ == "SymText":
+            if x.kind == "dec" and not (x.up or x.lo):
+                return core.tofloat(x.payload)  # float(str(n)) == float(n)
             raise Unsupported("float() of symbolic text")
         return _float(x)
 
